@@ -21,7 +21,7 @@ using namespace vf;
 
 enum Kind { M_NONE = 0,
     M_EXPECT,      // a function, b count (0 = expectNoCall), c flags (1 ignoreOtherParameters), d object id (0 none); s values; s2 return value
-    M_CALL,        // a function, d object id, phase = caller task; s values; s2 deviation ("" none, "drop", "dup", "value:k", "rename:k", "omit:k", "object", "noobject", "extra", "swap")
+    M_CALL,        // a function, d object id, phase = caller task, c extra getter (cfront profile); s values; s2 deviation ("" none, "drop", "dup", "value:k", "rename:k", "omit:k", "object", "noobject", "extra", "swap")
     M_DATA,        // data store: a type, s name, s2 value (C19)
     M_COUNT };
 static const char* const kNames[M_COUNT] = { "none", "expect", "call", "data" };
@@ -85,7 +85,7 @@ struct Outcome {           // what one execution of a scenario looked like from 
     size_t failures; Str firstFailure; Str allText; bool bodyCompleted; size_t callsMade;
     Outcome() : failures(0), bodyCompleted(false), callsMade(0) {}
 };
-struct CallPlan { int fn; int obj; Vec<int> vals; Str dev; int task; bool extra; int scope; bool shortForm; };
+struct CallPlan { int fn; int obj; Vec<int> vals; Str dev; int task; bool extra; int scope; bool shortForm; int xget; };   // xget: 0, or one more read of the returned value through getter number xget, whatever the stored type
 struct ExpPlan { int fn; int count; int flags; int obj; Vec<int> vals; int ret; int scope; };      // flags: 1 ignoreOtherParameters, 2 named scope, 4 short form (last parameter not specified, and not passed by its calls)
 struct Scenario { bool strict, ignoreOther, useScope, preFail; int rounds; Vec<ExpPlan> exps; Vec<CallPlan> calls; Vec<Op> data; };
 
@@ -239,6 +239,21 @@ struct CppFront : public Front {
             default: break;
             }
         }
+        if (c.xget) {       // one more read through a getter chosen without regard to the stored type: a mismatch must fail the test the same way through both interfaces
+            switch (c.xget) {
+            case 1: line += sfmt(" x1=%d", (int)x.returnBoolValue()); break; case 2: line += sfmt(" x2=%d", x.returnIntValue()); break; case 3: line += sfmt(" x3=%u", x.returnUnsignedIntValue()); break;
+            case 4: line += sfmt(" x4=%ld", x.returnLongIntValue()); break; case 5: line += sfmt(" x5=%lu", x.returnUnsignedLongIntValue()); break; case 6: line += sfmt(" x6=%lld", (long long)x.returnLongLongIntValue()); break;
+            case 7: line += sfmt(" x7=%llu", (unsigned long long)x.returnUnsignedLongLongIntValue()); break; case 8: line += sfmt(" x8=%.6f", x.returnDoubleValue()); break; case 9: line += sfmt(" x9=%s", x.returnStringValue()); break;
+            case 10: line += sfmt(" x10=%lx", (unsigned long)(uintptr_t)x.returnPointerValue()); break; case 11: line += sfmt(" x11=%lx", (unsigned long)(uintptr_t)x.returnConstPointerValue()); break;
+            case 12: line += sfmt(" x12=fp%d", fpIndex(x.returnFunctionPointerValue())); break;
+            case 13: line += sfmt(" x13=%u", x.returnUnsignedIntValueOrDefault(3u)); break; case 14: line += sfmt(" x14=%ld", x.returnLongIntValueOrDefault(-4L)); break;
+            case 15: line += sfmt(" x15=%lu", x.returnUnsignedLongIntValueOrDefault(5UL)); break; case 16: line += sfmt(" x16=%lld", (long long)x.returnLongLongIntValueOrDefault(-6)); break;
+            case 17: line += sfmt(" x17=%llu", (unsigned long long)x.returnUnsignedLongLongIntValueOrDefault(7)); break; case 18: line += sfmt(" x18=%.6f", x.returnDoubleValueOrDefault(8.5)); break;
+            case 19: line += sfmt(" x19=%s", x.returnStringValueOrDefault("nine")); break; case 20: line += sfmt(" x20=%lx", (unsigned long)(uintptr_t)x.returnConstPointerValueOrDefault((const void*)0x20)); break;
+            case 21: line += sfmt(" x21=fp%d", fpIndex(x.returnFunctionPointerValueOrDefault(fpPool[1]))); break; case 22: line += sfmt(" x22=%d", x.returnIntValueOrDefault(22)); break;
+            case 23: line += sfmt(" x23=%d", (int)x.returnBoolValueOrDefault(false)); break; default: line += sfmt(" x24=%lx", (unsigned long)(uintptr_t)x.returnPointerValueOrDefault((void*)0x24)); break;
+            }
+        }
         o.log.push_back(line); o.callsMade++;
     }
     void check(const Scenario&) { mock().checkExpectations(); }
@@ -376,6 +391,21 @@ struct CFront : public Front {
             case T_LL: line += sfmt(" def=%lld", (long long)M->returnLongLongIntValueOrDefault(-9)); break;
             case T_DOUBLE: line += sfmt(" def=%.6f", M->returnDoubleValueOrDefault(9.5)); break;
             default: break;
+            }
+        }
+        if (c.xget) {
+            switch (c.xget) {
+            case 1: line += sfmt(" x1=%d", x->boolReturnValue() ? 1 : 0); break; case 2: line += sfmt(" x2=%d", x->intReturnValue()); break; case 3: line += sfmt(" x3=%u", x->unsignedIntReturnValue()); break;
+            case 4: line += sfmt(" x4=%ld", x->longIntReturnValue()); break; case 5: line += sfmt(" x5=%lu", x->unsignedLongIntReturnValue()); break; case 6: line += sfmt(" x6=%lld", (long long)x->longLongIntReturnValue()); break;
+            case 7: line += sfmt(" x7=%llu", (unsigned long long)x->unsignedLongLongIntReturnValue()); break; case 8: line += sfmt(" x8=%.6f", x->doubleReturnValue()); break; case 9: line += sfmt(" x9=%s", x->stringReturnValue()); break;
+            case 10: line += sfmt(" x10=%lx", (unsigned long)(uintptr_t)x->pointerReturnValue()); break; case 11: line += sfmt(" x11=%lx", (unsigned long)(uintptr_t)x->constPointerReturnValue()); break;
+            case 12: line += sfmt(" x12=fp%d", fpIndex(x->functionPointerReturnValue())); break;
+            case 13: line += sfmt(" x13=%u", x->returnUnsignedIntValueOrDefault(3u)); break; case 14: line += sfmt(" x14=%ld", x->returnLongIntValueOrDefault(-4L)); break;
+            case 15: line += sfmt(" x15=%lu", x->returnUnsignedLongIntValueOrDefault(5UL)); break; case 16: line += sfmt(" x16=%lld", (long long)x->returnLongLongIntValueOrDefault(-6)); break;
+            case 17: line += sfmt(" x17=%llu", (unsigned long long)x->returnUnsignedLongLongIntValueOrDefault(7)); break; case 18: line += sfmt(" x18=%.6f", x->returnDoubleValueOrDefault(8.5)); break;
+            case 19: line += sfmt(" x19=%s", x->returnStringValueOrDefault("nine")); break; case 20: line += sfmt(" x20=%lx", (unsigned long)(uintptr_t)x->returnConstPointerValueOrDefault((const void*)0x20)); break;
+            case 21: line += sfmt(" x21=fp%d", fpIndex(x->returnFunctionPointerValueOrDefault(fpPool[1]))); break; case 22: line += sfmt(" x22=%d", x->returnIntValueOrDefault(22)); break;
+            case 23: line += sfmt(" x23=%d", x->returnBoolValueOrDefault(0) ? 1 : 0); break; default: line += sfmt(" x24=%lx", (unsigned long)(uintptr_t)x->returnPointerValueOrDefault((void*)0x24)); break;
             }
         }
         o.log.push_back(line); o.callsMade++;
@@ -523,6 +553,7 @@ struct Engine : public vf::Engine {
             Vec<Op> calls;
             for (size_t k = 0; k < G.ops.size(); k++) if (G.ops[k].kind == M_EXPECT) for (int n = 0; n < (int)G.ops[k].b; n++) {
                 Op c; c.kind = M_CALL; c.a = G.ops[k].a; c.d = G.ops[k].d; c.s = G.ops[k].s; c.phase = (int)w.below((uint64_t)nTasks); c.b = ((G.ops[k].c & 2) ? 1 : 0) | ((G.ops[k].c & 4) ? 2 : 0);
+                if (cfront && w.chance(1, 6)) c.c = w.range(1, 24);
                 if (G.ops[k].c & 1) { Vec<int> v = parseIdx(c.s); if (!v.empty()) v.back() = (int)w.below(7); c.s = joinIdx(v); }   // the ignored parameter may carry anything
                 calls.push_back(c);
             }
@@ -559,7 +590,7 @@ struct Engine : public vf::Engine {
             const Op& o = G.ops[i];
             if (o.kind == M_EXPECT) { ExpPlan e; e.fn = (int)(o.a % N_FN); e.count = (int)o.b; e.flags = (int)o.c; e.obj = (int)o.d; e.vals = parseIdx(o.s); e.vals.resize((size_t)FNS[e.fn].np, 0); e.ret = atoi(o.s2.c_str()); e.scope = (e.flags & 2) ? 1 : 0; sc.exps.push_back(e); }
             else if (o.kind == M_CALL) {
-                CallPlan c; c.fn = (int)(o.a % N_FN); c.obj = (int)o.d; c.vals = parseIdx(o.s); c.vals.resize((size_t)FNS[c.fn].np, 0); c.dev = o.s2; c.task = o.phase; c.extra = o.s2 == "extra"; c.scope = (o.b & 1) ? 1 : 0; c.shortForm = (o.b & 2) != 0;
+                CallPlan c; c.fn = (int)(o.a % N_FN); c.obj = (int)o.d; c.vals = parseIdx(o.s); c.vals.resize((size_t)FNS[c.fn].np, 0); c.dev = o.s2; c.task = o.phase; c.extra = o.s2 == "extra"; c.scope = (o.b & 1) ? 1 : 0; c.shortForm = (o.b & 2) != 0; c.xget = (int)o.c;
                 if (c.dev == "drop") continue;
                 sc.calls.push_back(c);
                 if (c.dev == "dup") { CallPlan c2 = c; c2.task = (c.task + 1) % 4; sc.calls.push_back(c2); }
@@ -707,6 +738,7 @@ struct Engine : public vf::Engine {
                 Vec<Cls> cls;
                 if (scs[i].preFail) { probe("scenario_fails_before_mock_check"); continue; }
                 if (scs[i].rounds > 1) { probe("scenario_two_rounds_with_clear"); continue; }
+                { bool xg = false; for (size_t q = 0; q < scs[i].calls.size(); q++) if (scs[i].calls[q].xget) xg = true; if (xg) { probe("scenario_reads_through_other_getter"); continue; } }
                 if (!buildClasses(scs[i], cls)) { probe("scenario_outside_precondition"); continue; }
                 Walk x; model(scs[i], orders[i], cls, x);
                 bool passed = outs[i].failures == 0;
